@@ -22,6 +22,11 @@ type ErrVal struct{}
 type bcInterp struct {
 	p     *Prog
 	depth int
+	// Bind maps the source text of an expression (types.ExprString) to the value it
+	// takes; used to treat e.g. p.data[p.pos] as the free byte variable.
+	Bind map[string]int64
+	// Unknown decides calls outside the fragment (by callee name or source text).
+	Unknown func(name string) (any, bool)
 }
 
 type bcEnv map[types.Object]any
@@ -201,6 +206,11 @@ func wrap(t types.Type, v int64) int64 {
 
 func (it *bcInterp) expr(fd *FuncDecl, e ast.Expr, env bcEnv) (any, error) {
 	info := fd.Pkg.TypesInfo
+	if it.Bind != nil {
+		if v, ok := it.Bind[types.ExprString(e)]; ok {
+			return v, nil
+		}
+	}
 	if tv, ok := info.Types[e]; ok && tv.Value != nil {
 		switch tv.Value.Kind() {
 		case constant.Int:
@@ -332,6 +342,11 @@ func (it *bcInterp) expr(fd *FuncDecl, e ast.Expr, env bcEnv) (any, error) {
 		case *ast.SelectorExpr:
 			callee, _ = info.Uses[f.Sel].(*types.Func)
 		}
+		if it.Unknown != nil {
+			if v, ok := it.Unknown(types.ExprString(x.Fun)); ok {
+				return v, nil
+			}
+		}
 		if callee == nil {
 			return nil, fmt.Errorf("dynamic call")
 		}
@@ -373,4 +388,27 @@ func funcObjNameEng(f *types.Func) string {
 		pkg = shortPkg(f.Pkg().Path())
 	}
 	return pkg + "." + f.Name()
+}
+
+// ExprByteSet evaluates a boolean expression of function fd for each value
+// 0..255 of the sub-expression whose source text is free (e.g. "c" or
+// "p.data[p.pos]") and returns the set of bytes for which it is true. unknown
+// decides calls that are not byte-class functions (nil: such calls are errors).
+func (p *Prog) ExprByteSet(fd *FuncDecl, e ast.Expr, free string, unknown func(string) (any, bool)) (map[byte]bool, error) {
+	set := map[byte]bool{}
+	for c := 0; c < 256; c++ {
+		it := &bcInterp{p: p, Bind: map[string]int64{free: int64(c)}, Unknown: unknown}
+		v, err := it.expr(fd, e, bcEnv{})
+		if err != nil {
+			return nil, err
+		}
+		b, ok := v.(bool)
+		if !ok {
+			return nil, fmt.Errorf("expression is not boolean")
+		}
+		if b {
+			set[byte(c)] = true
+		}
+	}
+	return set, nil
 }
